@@ -311,7 +311,7 @@ def validation_plan(run, fams, nontrivial, n_random_quick, n_random_thorough, ru
 
 @plan("C05")
 def c05(run):
-    return validation_plan(run, ["res"], nt_named_type, 300, 3000,
+    return validation_plan(run, ["res", "shadow"], nt_named_type, 300, 3000,
         "TLC enumerates MC_Validate family 'res' (reference name x import subsets x forward declarations x project "
         "items x placement/nesting) exhaustively within the tier's bound; plus seeded random multi-file projects with "
         "adversarially similar names. Non-trivial = distinct scenario whose observed tree has at least one named type reference.")
@@ -499,6 +499,10 @@ def symbol_plan(run, what, nrand_q, nrand_t, rule, nontrivial, chunk=600):
     for s in run.add_model("MC_Validate", env={"FAMILY": "sym", "TIER": run.tier}):
         s["query"] = ["a", "r"]
         scs.append(F.symbol_scenario(s, "mc-sym", what))
+    if run.prop == "C17":
+        for s in run.add_model("MC_Validate", env={"FAMILY": "shadow", "TIER": run.tier}):
+            s["query"] = ["a", "d1"]
+            scs.append(F.symbol_scenario(s, "mc-shadow", what))
     g = F.ProjGen(run.rng, run.prop)
     for _ in range(nrand_q if q else nrand_t):
         pr = g.project()
@@ -720,6 +724,23 @@ def recovery_scenario(pre, garbage, suf, rng, lay, src):
     return {"sid": "", "src": src, "ops": ops}
 
 
+def lex_scenarios(run, slot="all"):
+    out, st, printed = C.run_model("MC_Lex", workers=8, timeout=1800, wdir=run.wdir, env_extra={"SLOT": slot})
+    run.model_states += st.get("distinct", 0)
+    run.model_transitions += st.get("generated", 0)
+    run.models.append({"module": "MC_Lex", "env": {"SLOT": slot}, "distinct": st.get("distinct", 0)})
+    scs = []
+    for s in printed:
+        if s.startswith("SCEN "):
+            x = json.loads(s[5:])
+            text = "".join(R.ATOMS[a] if len(a) > 1 else a for a in x["atoms"])
+            scs.append({"sid": "", "src": f"mc-lex-{x['slot']}", "ops": [
+                {"op": "new", "i": 1},
+                {"op": "add", "i": 1, "id": "a", "text": text, "atoms": x["atoms"], "parsed": True},
+                {"op": "validate", "i": 1, "detail": "digest"}]})
+    return scs
+
+
 def nt_syntax_error(sc, evs):
     return any(e["ev"] == "add" and any(d["tag"] == "syntax" for d in e.get("pobs", {}).get("diags", [])) for e in evs)
 
@@ -739,6 +760,7 @@ def c03(run):
     q = run.tier == "quick"
     scs, nwell = slot_scenarios(run, 2 if q else 3)
     run.add(scs)
+    run.add(lex_scenarios(run))
     run.add(mutated_docs(run, 1500 if q else 30000, validate=True))
     g = D.RichGen(run.rng)
     for _ in range(300 if q else 3000):
@@ -751,7 +773,10 @@ def c03(run):
                 "replacements / swaps applied to rich generated documents, and well-formed documents. The trace spec re-derives "
                 "the verdict from the pieces (AidlParse.ParseToks + the 32-bit rule) and demands: no syntax diagnostic and a tree "
                 "iff well-formed; at least one Error otherwise; parse-stage diagnostics survive validation; no stored identifier "
-                "is a keyword or reserved word. Non-trivial = distinct scenario with at least one syntax diagnostic.")
+                "is a keyword or reserved word. Lexical part: TLC enumerates MC_Lex (58 keywords / reserved words x 10 "
+                "variants, numeric forms, unterminated / nested-looking strings and comments, non-ASCII atoms, in 13 lexical slots) "
+                "as CHARACTER sequences; there the trace spec lexes the characters itself (AidlLex: longest match + block "
+                "priority) before parsing. Non-trivial = distinct scenario with at least one syntax diagnostic.")
     run.exhaustive = False
     return judge(run, nt_syntax_error, chunk_events=3000, extra_cov={"slot_fillings_wellformed_per_spec": nwell})
 
